@@ -66,3 +66,23 @@ def UfuncUse.spectralOnly (u : UfuncUse) : Bool :=
   u.vectorize && u.ins.all (·.all fun d => axisOf d != .pos) && u.outs.all (·.all fun d => d == "part" || axisOf d != .pos)
 
 end WS.DimSem
+
+namespace WS.DimSem
+/-- one regenerated `apply_ufunc` call seen from the dask side: union of the input core dimensions, the
+    `.chunk({dim: value})` specifications applied earlier in the same function (or inside the call's arguments), the
+    `allow_rechunk` flag handed to dask and the `dask=` mode -/
+structure DaskUse where
+  fn : String
+  kernel : String
+  core : List String
+  rechunked : List (String × String)
+  allowRechunk : Bool
+  dask : String
+  deriving DecidableEq, Repr
+
+/-- core dimension `d` is brought to a single chunk before the kernel runs: by the code (`chunk({d: -1})`) or by dask
+    itself (`allow_rechunk=True`) -/
+def DaskUse.covers (u : DaskUse) (d : String) : Bool := u.allowRechunk || u.rechunked.contains (d, "-1")
+
+def DaskUse.ok (u : DaskUse) : Bool := u.dask == "parallelized" && u.core.all u.covers
+end WS.DimSem
